@@ -89,15 +89,15 @@ def run(ctx):
     ctx.tlc_check("chain", "MCCrash.tla", "Crash_quick.cfg", timeout=900)
     ctx.tlc_check("chain", "MCCrash.tla", "Crash_quick_b.cfg", timeout=900)
     if thorough:
-        r = ctx.tlc_check("chain", "MCCrash.tla", "Crash_thorough.cfg", timeout=3000, coverage=True)
-        vlib.require_actions_covered(r)
-        r = ctx.tlc_check("chain", "MCCrash.tla", "Crash_thorough_b.cfg", timeout=3000, coverage=True)
-        vlib.require_actions_covered(r)
+        ctx.tlc_check("chain", "MCCrash.tla", "Crash_thorough.cfg", timeout=3000)
+        ctx.tlc_check("chain", "MCCrash.tla", "Crash_thorough_b.cfg", timeout=3000)
     if thorough:
         # vacuity: the situations the properties talk about are reachable (each witness invariant
         # claims "never" and must be violated)
-        for wname in ("NeverFailedWrite", "NeverCrashedMidPrune", "NeverCrossedBack"):
-            txt, _ = cfg_text("hi", repaired, max_ops=5, invariants=False)
+        for wname in ("NeverStore", "NeverRevert", "NeverSetL1", "NeverSnapshot", "NeverPrune", "NeverPruneStep",
+                      "NeverRestart", "NeverQuery", "NeverInitPut", "NeverFailedWrite", "NeverCrashedMidPrune",
+                      "NeverCrossedBack"):
+            txt, _ = cfg_text("hi", repaired, max_ops=6, invariants=False)
             txt = txt.replace("CHECK_DEADLOCK FALSE", "INVARIANTS %s\nCHECK_DEADLOCK FALSE" % wname)
             r = ctx.tlc_check("chain", "MCCrash.tla", "witness.cfg", files={"witness.cfg": txt}, timeout=600,
                               expect_violation=True, label="witness " + wname)
